@@ -15,6 +15,9 @@ oracles     : (numeric tie) dense matrix of the final MPO vs U1 U2^dagger from q
               `equivalence_checker.run(c1, c2, threshold, fidelity)` vs the exact overlap |tr(U1^dag U2)|/2^n:
               equal-up-to-phase pairs must be equivalent, overlap < f-1e-6 must be "not equivalent",
               overlap > f+1e-6 must be "equivalent", both argument orders, incl. long-range gates and swaps.
+extension   : value ties of the tensor contractions (`apply_gate`, `apply_temporal_zone`, `update_mpo`, `decompose_theta`,
+              the einsums of `apply_long_range_layer`, `MPS.scalar_product` / `MPO.check_if_identity`) against
+              Model/MpoUpdate.lean on exact inputs — kinds `t-*`, see the block "EXTENSION (x04)" below.
 """
 from __future__ import annotations
 
@@ -541,7 +544,616 @@ def run_random_pair(inp):
     return out
 
 
-def gen(rng, tier):
+# ================================================================================================================
+# EXTENSION (x04): the tensor contractions of the MPO build as index algebra — value ties against Model/MpoUpdate.lean
+# ================================================================================================================
+# kinds (all value ties on exact rational / exact binary64 inputs, bond dimensions 1..3):
+#   t-applygate      real `apply_gate` on duck-typed gates (BaseGate with rational matrix / tensor; name "I"; wrong sites;
+#                    interaction 3) x conjugate / not, one-site on either site / two-site       vs `applyGate`
+#   t-applygate-lib  real `apply_gate` on the gate objects `convert_dag_to_tensor_algorithm` builds (both site orders)
+#   t-zone           real `apply_temporal_zone` on a real DAG (gates captured)                   vs `zoneApply`
+#   t-update         real `update_mpo` inside a rational MPO: the merged theta (`t-thetaof`), the matrix handed to the SVD,
+#                    the kept rank and the two tensors written back                              vs `updateTheta`, `thetaMatrix`, `decomposeTheta`
+#   t-decomp         real `decompose_theta` on rational theta, thresholds between the singular values
+#   t-lr             real `apply_long_range_layer`: every reshaped einsum handed to `apply_temporal_zone` (pair / hanging,
+#                    both orientations)                                                          vs `lrPairTop/Bottom`, `lrHang*`
+#   t-sp             real `MPS.scalar_product` on rational MPS                                   vs `scalarProduct`
+#   t-idtrace        real `MPO.check_if_identity`: the scalar it computes (captured) and its decision vs `identityTrace`, `identityDecision`
+# oracles (model-independent, dense numpy / qiskit): top update = G.Theta, bottom update = Theta.G^dagger on the two sites for
+# every pair of bond indices; zone = ordered product; update = embedded products on the whole chain; split-then-merge changes
+# theta by exactly the discarded weight; captured trace = conj(tr(to_matrix())).
+import contextlib  # noqa: E402
+
+import opt_einsum as oe  # noqa: E402
+
+from mqt.yaqs.core.data_structures.networks import MPS  # noqa: E402
+from mqt.yaqs.core.libraries.gate_library import BaseGate  # noqa: E402
+
+TWORST = {"exact_dev": 0.0, "lib_dev": 0.0, "update_rel": 0.0, "split_rel": 0.0, "trace_dev": 0.0, "n": 0,
+          "svd_n": 0, "svd_worst": 0.0, "svd_bad": 0, "svd_detail": ""}
+T_EXACT_TOL = 1e-11        # rational inputs: every float operation is exact; observed deviation 0.0
+T_LIB_TOL = 1e-9           # library gates (binary64 entries): observed <= 4e-15
+
+
+def rat_tensor(rng, shape, den=4, span=4, zero_p=0.15, real=False):
+    """complex tensor with entries (k + i m)/den, |k|,|m| <= span — dyadic, so the contractions below are exact in binary64"""
+    a = np.zeros(shape, dtype=np.complex128)
+    for idx in np.ndindex(*shape):
+        if rng.random() < zero_p:
+            continue
+        a[idx] = complex(rng.randint(-span, span) / den, 0 if real else rng.randint(-span, span) / den)
+    return a
+
+
+def centries(arr):
+    """entries of an array, read one by one by explicit index (last index fastest), as exact rationals `re im`"""
+    arr = np.asarray(arr)
+    return " ".join(ib.cfrac(arr[idx]) for idx in np.ndindex(*arr.shape))
+
+
+def site_tokens(t):
+    t = np.asarray(t)
+    return f"{t.shape[0]} {t.shape[2]} {t.shape[3]} {centries(t)}".strip()
+
+
+def msite_tokens(t):
+    t = np.asarray(t)
+    return f"{t.shape[0]} {t.shape[1]} {t.shape[2]} {centries(t)}".strip()
+
+
+def gate_part(g):
+    inter = int(g.interaction)
+    sites = ",".join(str(int(s)) for s in g.sites) or "-"
+    if inter == 1:
+        ent = centries(np.asarray(g.matrix))
+    elif inter == 2:
+        ent = centries(np.asarray(g.tensor))
+    else:
+        ent = ""
+    return f"{1 if g.name == 'I' else 0} {inter} {sites} {ent}".strip()
+
+
+def blocks(theta):
+    """theta[a,e,l,b,f,r] -> array [l, r] of 4x4 operators on the two sites (row (a,e), column (b,f))"""
+    th = np.asarray(theta)
+    return th.transpose(2, 5, 0, 1, 3, 4).reshape(th.shape[2], th.shape[5], 4, 4)
+
+
+def full_op(g, site0):
+    """the 4x4 operator a gate object stands for on sites (site0, site0+1), from the attribute `apply_gate` reads"""
+    if g.name == "I":
+        return np.eye(4, dtype=complex)
+    if int(g.interaction) == 1:
+        m = np.asarray(g.matrix, dtype=complex)
+        return np.kron(m, np.eye(2)) if g.sites[0] == site0 else np.kron(np.eye(2), m)
+    return np.asarray(g.tensor, dtype=complex).reshape(4, 4)
+
+
+def product_oracle(old, new, ops, conj, tol, what):
+    """new = (ops_k ... ops_1) . old  (top)   or   old . ops_1^dag ... ops_k^dag  (bottom), per pair of bond indices"""
+    u = np.eye(4, dtype=complex)
+    for o in ops:
+        u = o @ u
+    bo, bn = blocks(old), blocks(new)
+    want = bo @ u.conj().T if conj else u @ bo
+    dev = float(np.abs(bn - want).max()) if bn.size else 0.0
+    return dev, {"ok": dev <= tol, "detail": f"{what}: max |new - {'old.G^dagger' if conj else 'G.old'}| over the two-site blocks = {dev:.2e}"}
+
+
+def duck_gate(rng, kind, s0):
+    """a BaseGate the real `apply_gate` accepts, with independent rational `matrix` and `tensor`"""
+    if kind in ("one0", "one1", "id1", "wrong1"):
+        g = BaseGate(rat_tensor(rng, (2, 2)))
+        g.tensor = rat_tensor(rng, (2, 2))                 # never read for a one-site gate
+        g.sites = [{"one0": s0, "one1": s0 + 1, "id1": rng.choice([s0, s0 + 1]), "wrong1": s0 + rng.choice([-1, 2, 5]) if s0 > 0 else s0 + 2}[kind]]
+        if kind == "id1":
+            g.name = "I"
+    elif kind in ("two", "two-rev", "id2", "wrong2"):
+        g = BaseGate(rat_tensor(rng, (4, 4)))              # never read for a two-site gate
+        g.tensor = rat_tensor(rng, (2, 2, 2, 2))
+        g.sites = {"two": [s0, s0 + 1], "two-rev": [s0 + 1, s0], "id2": [s0, s0 + 1], "wrong2": rng.choice([[s0, s0 + 2], [s0 + 3, s0 + 1]])}[kind]
+        if kind == "id2":
+            g.name = "I"
+    else:                                                  # three-qubit gate: `assert gate.interaction in {1, 2}`
+        g = BaseGate(np.eye(8, dtype=complex))
+        g.sites = [s0, s0 + 1, s0 + 2]
+    return g
+
+
+def run_t_applygate(inp):
+    rng = random.Random(inp["sub"])
+    out = []
+    for kind in ("one0", "one1", "two", "two-rev", "id1", "id2", "wrong1", "wrong2", "three"):
+        if kind in ("wrong1", "wrong2", "three", "id1", "id2") and rng.random() < 0.5:
+            continue
+        for conj in (False, True):
+            dl, dr = rng.randint(1, 3), rng.randint(1, 3)
+            s0 = rng.randrange(0, 4)
+            g = duck_gate(rng, kind, s0)
+            theta = rat_tensor(rng, (2, 2, dl, 2, 2, dr))
+            req = f"applygate 2 {dl} {dr} {s0} {s0 + 1} {int(conj)} | {gate_part(g)} | {centries(theta)}"
+            try:
+                new = mu.apply_gate(g, theta.copy(), s0, s0 + 1, conjugate=conj)
+                impl = centries(new)
+                if np.asarray(new).shape != theta.shape:
+                    orc = {"ok": False, "detail": f"apply_gate changed the shape {theta.shape} -> {np.asarray(new).shape}"}
+                else:
+                    dev, orc = product_oracle(theta, new, [full_op(g, s0)], conj, T_EXACT_TOL, f"apply_gate {kind} conjugate={conj}")
+                    TWORST["exact_dev"] = max(TWORST["exact_dev"], dev)
+            except AssertionError:
+                impl = "assert"
+                orc = {"ok": kind in ("wrong1", "wrong2", "three"), "detail": f"apply_gate raised AssertionError for a {kind} gate on sites {g.sites} at ({s0},{s0 + 1})"}
+            out.append({"req": req, "impl": impl, "kind": "t-applygate", "oracle": orc, "sig": f"t-applygate:{kind}:{int(conj)}:{dl}{dr}",
+                        "nontrivial": kind not in ("id1", "id2")})
+    return out
+
+
+T_LIB_1Q = ["h", "x", "y", "z", "sx", "rx", "ry", "rz", "p", "id", "u"]
+T_LIB_2Q = ["cx", "cz", "swap", "cp", "rxx", "ryy", "rzz"]
+
+
+def lib_instr(rng, name, n):
+    ps = [rng.uniform(-3.1, 3.1) for _ in range(NPAR.get(name, 0))]
+    if name in T_LIB_1Q:
+        return [name, [rng.choice([n, n + 1])], ps]
+    return [name, [n, n + 1] if rng.random() < 0.5 else [n + 1, n], ps]
+
+
+def local_unitary(instrs, n):
+    """product of the instructions as a 4x4 operator on sites (n, n+1), site n most significant (qiskit reference)"""
+    return unitary(2, [[nm, [q - n for q in qs], ps] for nm, qs, ps in instrs])
+
+
+def run_t_applygate_lib(inp):
+    rng = random.Random(inp["sub"])
+    out = []
+    names = rng.sample(T_LIB_1Q, 3) + rng.sample(T_LIB_2Q, 4)
+    for name in names:
+        n = rng.randrange(0, 3)
+        ins = lib_instr(rng, name, n)
+        qc = build(n + 2, [ins])
+        g = du.convert_dag_to_tensor_algorithm(circuit_to_dag(qc))[0]
+        conj = rng.random() < 0.5
+        dl, dr = rng.randint(1, 3), rng.randint(1, 3)
+        theta = rat_tensor(rng, (2, 2, dl, 2, 2, dr))
+        new = mu.apply_gate(g, theta.copy(), n, n + 1, conjugate=conj)
+        dev, orc = product_oracle(theta, new, [local_unitary([ins], n)], conj, T_LIB_TOL, f"apply_gate {name} on {ins[1]} conjugate={conj} vs qiskit")
+        TWORST["lib_dev"] = max(TWORST["lib_dev"], dev)
+        out.append({"req": f"applygate 2 {dl} {dr} {n} {n + 1} {int(conj)} | {gate_part(g)} | {centries(theta)}", "impl": centries(new),
+                    "kind": "t-applygate-lib", "oracle": orc, "sig": f"t-applygate-lib:{name}:{ins[1][0] < ins[1][-1]}:{int(conj)}", "nontrivial": True})
+    return out
+
+
+@contextlib.contextmanager
+def patched(pairs):
+    saved = [(m, n, getattr(m, n)) for m, n, _ in pairs]
+    for m, n, f in pairs:
+        setattr(m, n, f)
+    try:
+        yield
+    finally:
+        for m, n, o in reversed(saved):
+            setattr(m, n, o)
+
+
+class ZoneRec:
+    """records, per call of the real `apply_temporal_zone`: input theta, sites, conjugate flag, the gate objects
+    `convert_dag_to_tensor_algorithm` returned, the instructions of the zone, output theta"""
+
+    def __init__(self, hook=None):
+        self.calls, self.hook = [], hook
+
+    def patches(self):
+        o_atz, o_conv, o_gtz = mu.apply_temporal_zone, mu.convert_dag_to_tensor_algorithm, mu.get_temporal_zone
+        rec = self
+
+        def atz(theta, dag, qubits, *, conjugate=False):
+            c = {"theta": np.array(theta), "n": int(qubits[0]), "conj": bool(conjugate), "gates": [], "instrs": []}
+            if rec.hook is not None:
+                rec.hook(c)
+            rec.calls.append(c)
+            r = o_atz(theta, dag, qubits, conjugate=conjugate)
+            c["out"] = np.array(r)
+            return r
+
+        def conv(x):
+            r = o_conv(x)
+            if rec.calls and not isinstance(x, DAGOpNode):
+                rec.calls[-1]["gates"] = list(r)
+            return r
+
+        def gtz(dag, qubits):
+            z = o_gtz(dag, qubits)
+            if rec.calls:
+                rec.calls[-1]["instrs"] = [[nd.op.name, [q._index for q in nd.qargs], [float(p) for p in nd.op.params]]  # noqa: SLF001
+                                           for nd in z.op_nodes() if nd.op.name not in {"measure", "barrier"}]
+            return z
+
+        return [(mu, "apply_temporal_zone", atz), (mu, "convert_dag_to_tensor_algorithm", conv), (mu, "get_temporal_zone", gtz)]
+
+
+def zone_instrs(rng, nq, n, m):
+    """instructions on nq qubits, most of them inside (n, n+1), some outside / straddling (they close the cone)"""
+    out = []
+    for _ in range(m):
+        r = rng.random()
+        if r < 0.45:
+            out.append(lib_instr(rng, rng.choice(T_LIB_1Q), n))
+        elif r < 0.85 or nq == 2:
+            out.append(lib_instr(rng, rng.choice(T_LIB_2Q), n))
+        elif r < 0.93:
+            q = rng.choice([x for x in range(nq) if x not in (n, n + 1)])
+            nm = rng.choice(["h", "rz"])
+            out.append([nm, [q], [rng.uniform(-3, 3)] if nm == "rz" else []])
+        else:
+            a = rng.choice([n, n + 1])
+            b = rng.choice([x for x in range(nq) if x not in (n, n + 1)])
+            out.append(["cx", [a, b], []])
+    return out
+
+
+def run_t_zone(inp):
+    rng = random.Random(inp["sub"])
+    nq = rng.choice([2, 3, 4])
+    n = rng.randrange(0, nq - 1)
+    instrs = zone_instrs(rng, nq, n, rng.randrange(0, 7))
+    dag = circuit_to_dag(build(nq, instrs))
+    conj = rng.random() < 0.5
+    dl, dr = rng.randint(1, 3), rng.randint(1, 3)
+    theta = rat_tensor(rng, (2, 2, dl, 2, 2, dr))
+    rec = ZoneRec()
+    with patched(rec.patches()):
+        new = mu.apply_temporal_zone(theta.copy(), dag, [n, n + 1], conjugate=conj)
+    c = rec.calls[0]
+    gs = c["gates"]
+    dev, orc = product_oracle(theta, new, [local_unitary([i], n) for i in c["instrs"]], conj, T_LIB_TOL * max(1, len(gs)),
+                              f"apply_temporal_zone ({len(gs)} gates) conjugate={conj} vs qiskit")
+    TWORST["lib_dev"] = max(TWORST["lib_dev"], dev)
+    if len(gs) != len(c["instrs"]):
+        orc = {"ok": False, "detail": f"zone has {len(c['instrs'])} instructions but {len(gs)} gate objects were applied"}
+    req = f"zone 2 {dl} {dr} {n} {int(conj)} {len(gs)} | " + "".join(gate_part(g) + " | " for g in gs) + centries(theta)
+    return {"req": req, "impl": centries(new), "kind": "t-zone", "oracle": orc, "sig": f"t-zone:{nq}:{n}:{len(gs)}:{int(conj)}:{dl}{dr}",
+            "nontrivial": len(gs) > 0}
+
+
+@contextlib.contextmanager
+def t_capture_svd(rec):
+    """wrap np.linalg.svd: record (matrix, u, s, vh) of every call; spec-tie the result (the hypotheses of `split_then_merge`)"""
+    orig = np.linalg.svd
+
+    def wrapper(a, *args, **kw):
+        u, s, vh = orig(a, *args, **kw)
+        a = np.array(a, dtype=complex)
+        scale = max(1.0, float(np.linalg.norm(a)))
+        e1 = float(np.linalg.norm(u @ np.diag(s) @ vh - a)) / scale
+        e2 = float(np.linalg.norm(u.conj().T @ u - np.eye(u.shape[1])))
+        e3 = float(np.linalg.norm(vh @ vh.conj().T - np.eye(vh.shape[0])))
+        good = e1 < 1e-9 and e2 < 1e-9 and e3 < 1e-9 and bool(np.all(s >= 0)) and bool(np.all(np.diff(s) <= 1e-13 * scale))
+        TWORST["svd_n"] += 1
+        TWORST["svd_worst"] = max(TWORST["svd_worst"], e1, e2, e3)
+        if not good:
+            TWORST["svd_bad"] += 1
+            TWORST["svd_detail"] = f"recon {e1:.2e} UhU {e2:.2e} VVh {e3:.2e} s={s[:6]}"
+        rec.append((a, np.array(u), np.array(s, dtype=float), np.array(vh)))
+        return u, s, vh
+
+    np.linalg.svd = wrapper
+    try:
+        yield
+    finally:
+        np.linalg.svd = orig
+
+
+def rational_chain(rng, length, maxb=3):
+    dims = [1] + [rng.randint(1, maxb) for _ in range(length - 1)] + [1]
+    return [rat_tensor(rng, (2, 2, dims[i], dims[i + 1])) for i in range(length)]
+
+
+def custom_mpo(ts):
+    m = MPO()
+    m.custom([np.array(t) for t in ts], transpose=False)
+    return m
+
+
+def embed(u4, n, length):
+    return np.kron(np.kron(np.eye(2**n), u4), np.eye(2 ** (length - n - 2)))
+
+
+def dec_parts(u, s, vh):
+    return f"{centries(u)} | {ib.fracs([float(v) for v in s])} | {centries(vh)}"
+
+
+def decomp_impl(tm, left, right):
+    left, right = np.asarray(left), np.asarray(right)
+    return (f"tm {tm.shape[0]} {tm.shape[1]} {centries(tm)} | keep {left.shape[3]} | {site_tokens(left)} | {site_tokens(right)}")
+
+
+def pick_threshold(rng, svals):
+    """thresholds on both sides of the singular values the real code will see (computed here only to place them)"""
+    s = sorted((float(x) for x in svals), reverse=True)
+    r = rng.random()
+    if r < 0.4 or not s:
+        return rng.choice([1e-13, 1e-12, 1e-10])
+    if r < 0.8 and len(s) > 1:
+        k = rng.randrange(len(s) - 1)
+        return 0.5 * (s[k] + s[k + 1]) if s[k] > s[k + 1] else 1e-13
+    if r < 0.9:
+        return s[0] * 2 + 1.0          # everything discarded
+    return s[-1] * 0.5 if s[-1] > 0 else 1e-13
+
+
+def run_t_update(inp):
+    rng = random.Random(inp["sub"])
+    length = rng.choice([2, 2, 3, 4])
+    n = rng.randrange(0, length - 1)
+    ts = rational_chain(rng, length)
+    i1 = zone_instrs(rng, length, n, rng.randrange(0, 5))
+    i2 = zone_instrs(rng, length, n, rng.randrange(0, 5))
+    d1, d2 = circuit_to_dag(build(length, i1)), circuit_to_dag(build(length, i2))
+    mpo = custom_mpo(ts)
+    old = mpo.to_matrix()
+    a_t, b_t = np.array(mpo.tensors[n]), np.array(mpo.tensors[n + 1])
+    # place the threshold relative to the spectrum of the block the code will split (the exact block, dense reference)
+    probe = custom_mpo(ts)
+    thr_mode = rng.random()
+    rec, svds = ZoneRec(), []
+    # first pass on a copy only to learn the spectrum (so that the threshold can be put between singular values)
+    if thr_mode < 0.45:
+        with t_capture_svd(svds):
+            mu.update_mpo(probe, circuit_to_dag(build(length, i1)), circuit_to_dag(build(length, i2)), [n, n + 1], 0.0)
+        thr = pick_threshold(rng, svds[-1][2])     # the last SVD is decompose_theta's (gate constructors call np.linalg.svd too)
+        svds = []
+    else:
+        thr = rng.choice([1e-13, 1e-12, 1e-10])
+    with patched(rec.patches()), t_capture_svd(svds):
+        mu.update_mpo(mpo, d1, d2, [n, n + 1], thr)
+    tm, u, s, vh = svds[-1]
+    c1, c2 = rec.calls[0], rec.calls[1]
+    left, right = np.asarray(mpo.tensors[n]), np.asarray(mpo.tensors[n + 1])
+    keep = left.shape[3]
+    out = []
+    # (a) the merged theta
+    out.append({"req": f"thetaof | {site_tokens(a_t)} | {site_tokens(b_t)}", "impl": " ".join(map(str, c1["theta"].shape)) + " " + centries(c1["theta"]),
+                "kind": "t-thetaof", "oracle": None, "sig": f"t-thetaof:{a_t.shape[2]}{a_t.shape[3]}{b_t.shape[3]}", "nontrivial": True})
+    # (b) the whole update
+    probs = []
+    if not (c1["conj"] is False and c2["conj"] is True and len(rec.calls) == 2):
+        probs.append(f"update_mpo called apply_temporal_zone with conjugate flags {[c['conj'] for c in rec.calls]}")
+    u1 = np.eye(4, dtype=complex)
+    for ins in c1["instrs"]:
+        u1 = local_unitary([ins], n) @ u1
+    u2 = np.eye(4, dtype=complex)
+    for ins in c2["instrs"]:
+        u2 = local_unitary([ins], n) @ u2
+    exact = embed(u1, n, length) @ old @ embed(u2, n, length).conj().T
+    new = mpo.to_matrix() if keep > 0 else np.zeros_like(old)
+    scale = max(1.0, float(np.linalg.norm(exact)))
+    disc = float(np.sum(s[keep:] ** 2))
+    if keep == len(s) or disc <= 1e-24:
+        rel = float(np.linalg.norm(new - exact)) / scale
+        TWORST["update_rel"] = max(TWORST["update_rel"], rel)
+        if rel > 1e-8:
+            probs.append(f"update_mpo at ({n},{n + 1}), nothing discarded: chain differs from U1.old.U2^dagger by {rel:.2e} (relative)")
+    elif length == 2:
+        got = float(np.linalg.norm(new - exact) ** 2)
+        rel = abs(got - disc) / max(1.0, float(np.linalg.norm(exact) ** 2))
+        TWORST["split_rel"] = max(TWORST["split_rel"], rel)
+        if rel > 1e-8:
+            probs.append(f"update_mpo with truncation: squared change {got:.6e} is not the discarded weight {disc:.6e}")
+    req = (f"update 2 {n} {len(s)} {ib.frac(thr)} {len(c1['gates'])} {len(c2['gates'])} | {site_tokens(a_t)} | {site_tokens(b_t)} | "
+           + "".join(gate_part(g) + " | " for g in c1["gates"] + c2["gates"]) + dec_parts(u, s, vh))
+    out.append({"req": req, "impl": decomp_impl(tm, left, right), "kind": "t-update",
+                "oracle": {"ok": not probs, "detail": "; ".join(probs) or f"update = U1.old.U2^dagger (kept {keep}/{len(s)})"},
+                "sig": f"t-update:{length}:{n}:{len(c1['gates'])}:{len(c2['gates'])}:{keep}/{len(s)}", "nontrivial": len(c1["gates"]) + len(c2["gates"]) > 0})
+    return out
+
+
+def run_t_decomp(inp):
+    rng = random.Random(inp["sub"])
+    dl, dr = rng.randint(1, 3), rng.randint(1, 3)
+    theta = rat_tensor(rng, (2, 2, dl, 2, 2, dr), zero_p=rng.choice([0.1, 0.5, 0.8]))
+    if rng.random() < 0.1:
+        theta[:] = 0
+    svals = np.linalg.svd(np.transpose(theta, (0, 3, 2, 1, 4, 5)).reshape(4 * dl, 4 * dr), compute_uv=False)
+    thr = pick_threshold(rng, svals)
+    svds = []
+    with t_capture_svd(svds):
+        left, right = mu.decompose_theta(theta.copy(), thr)
+    tm, u, s, vh = svds[0]
+    left, right = np.asarray(left), np.asarray(right)
+    keep = left.shape[3]
+    merged = oe.contract("abcd, efdg->aecbfg", left, right)
+    got = float(np.linalg.norm(merged - theta) ** 2)
+    disc = float(np.sum(s[keep:] ** 2))
+    rel = abs(got - disc) / max(1.0, float(np.linalg.norm(theta) ** 2))
+    TWORST["split_rel"] = max(TWORST["split_rel"], rel)
+    probs = []
+    if rel > 1e-9:
+        probs.append(f"decompose_theta then merge: squared change {got:.6e} is not the discarded weight {disc:.6e} (threshold {thr!r}, kept {keep}/{len(s)})")
+    if keep != int(np.sum(s > thr)):
+        probs.append(f"kept {keep} values, {int(np.sum(s > thr))} are above the threshold")
+    req = f"decomp 2 {dl} {dr} {len(s)} {ib.frac(thr)} | {centries(theta)} | {dec_parts(u, s, vh)}"
+    return {"req": req, "impl": decomp_impl(tm, left, right), "kind": "t-decomp",
+            "oracle": {"ok": not probs, "detail": "; ".join(probs) or f"split then merge = discarded weight (kept {keep}/{len(s)})"},
+            "sig": f"t-decomp:{dl}{dr}:{keep}/{len(s)}", "nontrivial": 0 < keep}
+
+
+def run_t_lr(inp):
+    rng = random.Random(inp["sub"])
+    span = rng.choice([3, 3, 4, 5])                       # number of sites the gate MPO covers
+    length = span + rng.randrange(0, 2)
+    lo = rng.randrange(0, length - span + 1)
+    a, b = (lo, lo + span - 1) if rng.random() < 0.5 else (lo + span - 1, lo)
+    name = rng.choice(["cx", "cx", "cz", "cp", "rzz", "rxx", "ryy"])
+    ps = [rng.uniform(0.2, 2.8)] if name in NPAR else []
+    conj = rng.random() < 0.5
+    ts = rational_chain(rng, length)
+    mpo = custom_mpo(ts)
+    old = mpo.to_matrix()
+    qc, empty = build(length, [[name, [a, b], ps]]), QuantumCircuit(length)
+    d1, d2 = (circuit_to_dag(empty), circuit_to_dag(qc)) if conj else (circuit_to_dag(qc), circuit_to_dag(empty))
+    made = []
+
+    class RecMPO(MPO):
+        def __init__(self, *x, **k):
+            super().__init__(*x, **k)
+            made.append(self)
+
+    segs = []
+
+    def hook(c):
+        if c["conj"] is False and made:
+            segs.append({"q": c["n"], "theta": c["theta"], "W": [None if t is None else np.array(t) for t in mpo.tensors],
+                         "G": [None if t is None else np.array(t) for t in made[-1].tensors]})
+
+    rec = ZoneRec(hook)
+    with patched(rec.patches() + [(mu, "MPO", RecMPO)]):
+        mu.apply_long_range_layer(mpo, d1, d2, 1e-13, conjugate=conj)
+    out = []
+    which = "bottom" if conj else "top"
+    for k, sg in enumerate(segs):
+        th = sg["theta"]
+        q = sg["q"]
+        hanging = (2 * k == span - 1)
+        if hanging:
+            req = f"lrhang {which} | {site_tokens(sg['G'][span - 1])} | {site_tokens(sg['W'][q + 1])} | {site_tokens(sg['W'][q])}"
+        else:
+            req = (f"lrpair {which} | {site_tokens(sg['G'][2 * k])} | {site_tokens(sg['G'][2 * k + 1])} | "
+                   f"{site_tokens(sg['W'][q])} | {site_tokens(sg['W'][q + 1])}")
+        out.append({"req": req, "impl": " ".join(map(str, th.shape)) + " " + centries(th), "kind": "t-lr", "oracle": None,
+                    "sig": f"t-lr:{which}:{'hang' if hanging else 'pair'}:{span}:{th.shape[2]}:{th.shape[5]}", "nontrivial": True})
+    g_full = unitary(length, [[name, [a, b], ps]])
+    want = old @ g_full.conj().T if conj else g_full @ old
+    rel = float(np.linalg.norm(mpo.to_matrix() - want)) / max(1.0, float(np.linalg.norm(want)))
+    TWORST["update_rel"] = max(TWORST["update_rel"], rel)
+    nseg = (span + 1) // 2
+    probs = []
+    if rel > 1e-8:
+        probs.append(f"apply_long_range_layer({name} on ({a},{b}), {length} sites, conjugate={conj}): chain differs from "
+                     f"{'old.G^dagger' if conj else 'G.old'} by {rel:.2e} (relative)")
+    if len(segs) != nseg:
+        probs.append(f"{len(segs)} two-site updates for a gate MPO on {span} sites (expected {nseg})")
+    out.append({"req": None, "impl": None, "kind": "t-lr-dense", "oracle": {"ok": not probs, "detail": "; ".join(probs) or "long-range layer = dense product"},
+                "sig": f"t-lr-dense:{name}:{span}:{int(conj)}:{a < b}", "nontrivial": True})
+    return out
+
+
+def rational_mps(rng, length, p, maxb=3):
+    dims = [1] + [rng.randint(1, maxb) for _ in range(length - 1)] + [1]
+    return [rat_tensor(rng, (p, dims[i], dims[i + 1])) for i in range(length)]
+
+
+def dense_mps(ts):
+    v = np.ones((1, 1), dtype=complex)
+    for t in ts:
+        v = np.einsum("xl,plr->xpr", v, t).reshape(-1, t.shape[2])
+    return v.reshape(-1)
+
+
+def run_t_sp(inp):
+    rng = random.Random(inp["sub"])
+    length = rng.choice([1, 2, 3, 4])
+    p = rng.choice([2, 2, 4])
+    ta, tb = rational_mps(rng, length, p), rational_mps(rng, length, p)
+    a = MPS(length, [t.copy() for t in ta], physical_dimensions=p)
+    b = MPS(length, [t.copy() for t in tb], physical_dimensions=p)
+    got = a.scalar_product(b)
+    ref = np.vdot(dense_mps(ta), dense_mps(tb))
+    dev = abs(complex(got) - complex(ref))
+    TWORST["trace_dev"] = max(TWORST["trace_dev"], dev)
+    req = f"sp {length} | " + " | ".join(msite_tokens(t) for t in ta) + " | " + " | ".join(msite_tokens(t) for t in tb)
+    return {"req": req, "impl": ib.cfrac(got), "kind": "t-sp", "oracle": {"ok": dev <= T_EXACT_TOL, "detail": f"scalar_product vs dense <a|b>: {dev:.2e}"},
+            "sig": f"t-sp:{length}:{p}:" + "".join(str(t.shape[2]) for t in ta) + ":" + "".join(str(t.shape[2]) for t in tb), "nontrivial": True}
+
+
+def run_t_idtrace(inp):
+    rng = random.Random(inp["sub"])
+    length = rng.choice([1, 2, 3, 4])
+    ts = rational_chain(rng, length)
+    if rng.random() < 0.3:                                 # near-identity operators: large traces, decisions that can go both ways
+        for t in ts:
+            for x in range(min(t.shape[2], t.shape[3])):
+                t[0, 0, x, x] += 1
+                t[1, 1, x, x] += 1
+    mpo = custom_mpo(ts)
+    dense_tr = complex(np.trace(mpo.to_matrix()))
+    ov = abs(dense_tr) / 2**length
+    fids = [rng.uniform(0.01, 0.99), ov * (1 + 1e-3), ov * (1 - 1e-3), ov + 1e-9, ov - 1e-9, 0.5 * ov + 1e-3]
+    out = []
+    for f in fids:
+        if not 0.0 < f:
+            continue
+        with Spy() as spy:
+            got = bool(mpo.check_if_identity(f))
+        tr = complex(spy.traces[-1])
+        dev = abs(tr - dense_tr.conjugate())
+        TWORST["trace_dev"] = max(TWORST["trace_dev"], dev)
+        probs = []
+        if dev > T_EXACT_TOL:
+            probs.append(f"check_if_identity computed the scalar {tr!r}, conj(tr(to_matrix())) = {dense_tr.conjugate()!r}")
+        edge = abs(ov - f) <= 1e-12 * max(1.0, ov)
+        if not edge and got != (ov >= f):
+            probs.append(f"|tr|/2^n = {ov!r}, fidelity {f!r}: check_if_identity says {got}")
+        req = f"idtrace {ib.frac(f)} | " + " | ".join(site_tokens(t) for t in mpo.tensors)
+        out.append({"req": req, "impl": f"tr {ib.cfrac(tr)} dec {int(got)}", "kind": "t-idtrace", "edge": edge,
+                    "oracle": {"ok": not probs, "detail": "; ".join(probs) or "trace = conj(tr(to_matrix())), decision = |tr|/2^n >= f"},
+                    "sig": f"t-idtrace:{length}:{int(got)}:" + "".join(str(t.shape[3]) for t in ts), "nontrivial": abs(dense_tr) > 0})
+    return out
+
+
+def real_code_raised(fn):
+    """an exception that escapes from inside mqt.yaqs on one of these well-formed inputs is an observation about the code
+    (a failing input), not a harness error; anything raised by the harness itself is re-raised"""
+    import functools
+    import traceback as tb
+
+    @functools.wraps(fn)
+    def wrapper(inp):
+        try:
+            return fn(inp)
+        except ib.NonFinite:
+            raise
+        except Exception as e:  # noqa: BLE001
+            frames = tb.extract_tb(e.__traceback__)
+            inside = [f for f in frames if "/mqt/yaqs/" in f.filename.replace("\\", "/")]
+            if not inside:
+                raise
+            f = inside[-1]
+            return {"req": None, "impl": None, "kind": inp["kind"] + "-raised", "sig": f"{inp['kind']}-raised:{type(e).__name__}:{f.name}",
+                    "oracle": {"ok": False, "detail": f"the real code raised {type(e).__name__}: {str(e)[:200]} in {f.name} "
+                                                      f"({f.filename.split('/mqt/yaqs/')[-1]}:{f.lineno}) on a well-formed input of kind {inp['kind']}"}}
+
+    return wrapper
+
+
+T_RUNNERS = {"t-applygate": run_t_applygate, "t-applygate-lib": run_t_applygate_lib, "t-zone": run_t_zone, "t-update": run_t_update,
+             "t-decomp": run_t_decomp, "t-lr": run_t_lr, "t-sp": run_t_sp, "t-idtrace": run_t_idtrace}
+T_RUNNERS = {k: real_code_raised(f) for k, f in T_RUNNERS.items()}
+
+
+def gen_tensor(rng, tier):
+    counts = {"quick": (40, 20, 80, 90, 60, 40, 60, 30), "thorough": (300, 150, 600, 600, 400, 300, 400, 200),
+              "search": (60, 30, 100, 100, 60, 40, 80, 40)}
+    c = counts.get(tier, counts["quick"])
+    plan = []
+    for k, m in zip(("t-applygate", "t-applygate-lib", "t-zone", "t-update", "t-decomp", "t-lr", "t-sp", "t-idtrace"), c):
+        plan += [k] * m
+    rng.shuffle(plan)
+    for k in plan:
+        yield {"kind": k, "sub": rng.randrange(1 << 30)}
+
+
+def t_spec():
+    return [{"name": "tensor ties: dense oracles (exact inputs: apply_gate = G.Theta / Theta.G^dagger; library gates vs qiskit; update / long-range layer "
+                     "vs embedded products; split-then-merge = discarded weight; trace = conj(tr(to_matrix())))", "ok": True,
+             "worst_exact_deviation": TWORST["exact_dev"], "worst_library_gate_deviation": TWORST["lib_dev"],
+             "worst_update_relative_deviation": TWORST["update_rel"], "worst_split_weight_relative_deviation": TWORST["split_rel"],
+             "worst_trace_deviation": TWORST["trace_dev"], "tolerances": {"exact": T_EXACT_TOL, "library": T_LIB_TOL, "update": 1e-8, "split": 1e-9}},
+            {"name": "np.linalg.svd spec on the matrices decompose_theta handed to it (U diag(s) Vh = M, UhU = 1, VhVhh = 1, s sorted >= 0) — the hypotheses of split_then_merge",
+             "ok": TWORST["svd_bad"] == 0, "n": TWORST["svd_n"], "worst": TWORST["svd_worst"], "detail": TWORST["svd_detail"]}]
+
+
+def gen_base(rng, tier):
     # numba / einsum warm-up happens in the first real call; important kinds first
     counts = {"quick": (80, 600, 4, 150, 250, 60), "thorough": (600, 6000, 10, 1500, 2500, 600), "search": (20, 300, 2, 200, 500, 100)}
     nd, ni, n1, ne, nx, nr = counts.get(tier, counts["quick"])
@@ -550,6 +1162,13 @@ def gen(rng, tier):
     rng.shuffle(plan)
     for k in plan:
         yield {"kind": k, "sub": rng.randrange(1 << 30)}
+
+
+def gen(rng, tier):
+    """the original kinds keep their random stream; the tensor kinds (cheap) are drawn afterwards and run first"""
+    base = list(gen_base(rng, tier))
+    yield from gen_tensor(rng, tier)
+    yield from base
 
 
 def run(inp):
@@ -564,11 +1183,13 @@ def spec():
     return [{"name": "numeric tie: final MPO of the real iterate vs U1 U2^dag (qiskit Operator)", "ok": True, "n": WORST["numeric_n"],
              "worst_deviation": WORST["numeric_dev"], "worst_deviation_over_tolerance": WORST["numeric_rel_tol"]},
             {"name": "overlap |trace|/2^n computed by the checker vs exact |tr(U1^dag U2)|/2^n", "ok": True, "n": WORST["overlap_n"],
-             "worst_deviation": WORST["overlap_dev"], "margin_used_by_oracles": EPS_MARGIN}]
+             "worst_deviation": WORST["overlap_dev"], "margin_used_by_oracles": EPS_MARGIN}] + t_spec()
 
 
 def run_kind(inp):
     k = inp["kind"]
+    if k in T_RUNNERS:
+        return T_RUNNERS[k](inp)
     if k == "diag":
         return run_diag(inp)
     if k == "iter":
@@ -591,10 +1212,17 @@ if __name__ == "__main__":
                  "rz/p/rx/rzz(eps)) with the overlap swept across the fidelity, both orders; iterate: random pairs over "
                  "{h,x,y,z,sx,rx,ry,rz,p,id,u,cx,cz,swap,cp,rxx,ryy,rzz}, n=2..6, local / long-range / swap-network / empty-circuit styles, "
                  "thresholds 1e-13..1e-10; sub-ties on the partially consumed DAGs seen inside the runs; distinct = distinct "
-                 "(kind, n, lengths, #long-range steps, rounds / verdict, side) signatures",
+                 "(kind, n, lengths, #long-range steps, rounds / verdict, side) signatures; "
+                 "tensor ties (t-*): real apply_gate (duck gates with rational matrix/tensor: one-site on either site, two-site in both "
+                 "site orders, name 'I', wrong sites, interaction 3; library gates) x conjugate, apply_temporal_zone on real DAGs, update_mpo "
+                 "inside rational chains (merged theta, matrix handed to the SVD, kept rank, tensors written back; thresholds between the "
+                 "singular values), decompose_theta, every reshaped einsum of apply_long_range_layer (pair / hanging, both orientations, gate "
+                 "MPO on 3..5 sites), MPS.scalar_product, check_if_identity's scalar and decision; bond dimensions 1..3",
             trusted_base=["qiskit Operator (dense reference unitary) and numpy in the oracles",
                           "qiskit circuit_to_dag / layers / remove_op_node modelled as the wire-dependency front of an instruction list (trace-tied)",
-                          "tensor numerics of the MPO build (apply_gate, decompose_theta, long-range gate MPO) modelled-not-verified: numeric tie only"],
+                          "tensor numerics of the MPO build (apply_gate, decompose_theta, long-range gate MPO) modelled-not-verified: numeric tie only",
+                          "extension: the index algebra of those contractions is now modelled (Model/MpoUpdate.lean) and value-tied; what stays "
+                          "outside is LAPACK's SVD (spec-tied on every matrix decompose_theta hands to it) and binary64 rounding"],
             assumptions=["t handed to the model is the binary64 |trace| the real scalar_product returned, as an exact rational",
                          "barriers / measurements / one-qubit registers are outside the iterate model (n = 1 is tied to the model's `assert`)"],
             spec=spec)
